@@ -443,7 +443,7 @@ func parentExec(a []string) string {
 func gen(r *lib.Rand, tier string, emit func(string)) {
 	nCorpus, nBuilt, nRandom := 150, 300, 40
 	if tier == "thorough" {
-		nCorpus, nBuilt, nRandom = -1, 6000, 600
+		nCorpus, nBuilt, nRandom = -1, 4000, 500
 	}
 	ins := c02gen.Inputs(r, nCorpus, nBuilt, 25, nRandom)
 	gs := []string{"vfy", "mix", "acc", "str"}
